@@ -94,6 +94,7 @@ int main(int argc, char **argv)
     libast_debug_level = 5;
 #else
     mc_init("C06", argc, argv);
+    libast_debug_level = (unsigned) mc_dlevel();        /* --dlevel=N: the whole run at runtime debug level N (default 0) */
 #endif
     int depth = (int) mc_arg_int("depth", mc_thorough() ? 6 : 4);
     const char *only = mc_arg("class", NULL);
